@@ -23,12 +23,11 @@ let () =
     while true do
       let line = input_line stdin in
       let toks = String.split_on_char ' ' line in
-      let nums =
-        List.filter_map
-          (fun t -> if t = "" then None else Some (n_of_int (int_of_string t)))
-          toks
-      in
-      let out = run_case nums in
+      let ints = List.filter_map (fun t -> if t = "" then None else Some (int_of_string t)) toks in
+      (* a case with a negative or absurdly large number is not a case: answer "0" (undecodable)
+         rather than building a unary number of that size *)
+      let sane = List.for_all (fun n -> n >= 0 && n < 100_000_000) ints in
+      let out = if sane then run_case (List.map n_of_int ints) else [N0] in
       Buffer.clear buf;
       List.iter
         (fun x ->
